@@ -51,8 +51,24 @@ func NewB(prop, tier string, seed int64, index int) *B {
 // Thorough reports whether the thorough tier was requested.
 func (b *B) Thorough() bool { return b.Tier == "thorough" }
 
+// QuickScale multiplies the nominal quick-tier case counts (the nominal
+// numbers were sized for sub-second runs; the quick budget is 20-90 s).
+var QuickScale = 8
+
 // N picks the case count for the tier.
 func (b *B) N(quick, thorough int) int {
+	if b.Thorough() {
+		return thorough
+	}
+	q := quick * QuickScale
+	if q > thorough {
+		q = thorough
+	}
+	return q
+}
+
+// N1 is N without the quick-tier scaling (for loops whose cost is high per unit).
+func (b *B) N1(quick, thorough int) int {
 	if b.Thorough() {
 		return thorough
 	}
